@@ -5,7 +5,7 @@ from vlib.common import hexs
 from vlib.decsuite import D, parse_tok, cls_kind, planes_of
 
 THEOREMS = ["C02_intra_picture", "C02_picture_body_roundtrip", "C02_block_roundtrip", "C02_macroblock_roundtrip", "C02_dequant_exact", "C02_zigzag_is_antidiagonal_walk", "C02_intradc_levels", "C02_block_placement", "C02_code_tables", "C02_transform_placement", "C02_intra_picture_accurate"]
-BRIDGES = ["BridgeTables", "BridgeKDequant", "BridgePMacroblock", "BridgePBlock", "BridgePLoop", "BridgePNextLoop", "BridgePNext", "BridgePReach"]
+BRIDGES = ["BridgeTables", "BridgeKDequant", "BridgePMacroblock", "BridgePBlock", "BridgePLoop", "BridgePNextLoop", "BridgePNext", "BridgePReach", "BridgePRle"]
 
 
 def sizes(thorough):
